@@ -438,7 +438,11 @@ impl ZchState {
                         } else {
                             0
                         }
-                        - common_prefix_len_from_past_activation)
+                        // The prefix length counts outputs; the other counts are of characters on
+                        // screen, which are fewer with no-erase or single-output characters.
+                        - ZchOutput::display_len(
+                            &a.zch_output[..common_prefix_len_from_past_activation as usize],
+                        ))
                     {
                         kb.press_key(OsCode::KEY_BACKSPACE)?;
                         kb.release_key(OsCode::KEY_BACKSPACE)?;
